@@ -281,7 +281,7 @@ def create_meta(data) -> typing.Optional[Meta]:
                              data['basicPropertyValues']] if 'basicPropertyValues' in data else []
     synonyms = [create_property_value(SynonymPropertyValue, x) for x in data['synonyms']] if 'synonyms' in data else []
     xrefs = [create_property_value(XrefPropertyValue, x) for x in data['xrefs']] if 'xrefs' in data else []
-    is_deprecated = 'deprecated' in data
+    is_deprecated = bool(data.get('deprecated', False))
 
     return Meta(definition, synonyms, comments, basic_property_values, xrefs, is_deprecated)
 
